@@ -91,9 +91,11 @@ def table_snap(tbl):
 
 
 def action_snap(act):
-    return {"action": _try(lambda: _enum(act.action)),
-            "addr": _try(lambda: act.hyperlink.address),
-            "target": _try(lambda: (act.target_slide.slide_id if act.target_slide is not None else None))}
+    tgt = _try(lambda: (act.target_slide.slide_id if act.target_slide is not None else None))
+    # the "address" of a jump to a slide is that slide's part name, which the documented renaming on first access of .slides may change
+    # between a live deck and its re-opened copy: the slide it leads to (by slide id) is what is compared
+    addr = _try(lambda: act.hyperlink.address) if not isinstance(tgt, int) else "(slide %d)" % tgt
+    return {"action": _try(lambda: _enum(act.action)), "addr": addr, "target": tgt}
 
 
 def shape_snap(sh, deep=True):
